@@ -34,3 +34,6 @@ func c14NewClient(cfg retry.Config) (func(context.Context) error, func(context.C
 		return c.UploadLogs(ctx, []*logpb.ResourceLogs{c14Item})
 	}, c.Shutdown
 }
+
+// whether the client has a stop function that cancels in-flight exports
+const c14HasStop = false
